@@ -30,7 +30,7 @@ def main(tier, replay=None):
     proofs_ok = c.proofs(gen_only=["Consts.v"])
     c.log("proofs:", "ok" if proofs_ok else c.proof_break)
     counters = PC.new_counters()
-    n = 220 if tier == "quick" else 3000
+    n = 340 if tier == "quick" else 1800
     base = ["-warmup", "7"]
     stats_all = []
     nbad = 0
@@ -54,7 +54,7 @@ def main(tier, replay=None):
             nhist += len(hist)
             sample = hist.get(min(hist), [])[:80] if hist else []
             for key, probe in sorted(PC.PROBES.items()):
-                if probe == "cbgames" and (key in c.known or os.environ.get("VERIF_PROBE")):
+                if key in c.known or os.environ.get("VERIF_PROBE"):
                     h2, m2, s2, exe = PC.run(c, "c10", max(60, n // 4), base + ["-probes", probe], probe)
                     stats_all.append(probe + ": " + s2)
                     nbad += PC.evaluate(c, h2, m2, "c10", probe, exe, base + ["-probes", probe], counters)
@@ -85,7 +85,8 @@ def main(tier, replay=None):
     c.assumptions = ["node mempool empty", "consensus-valid chains only (binding target length follows the warm-up height, staking withdrawals carry the required sequence)",
                      "CoinbaseMaturity lowered to 4, MinFrozenPeriod to 2, MASSIP0002WarmUpHeight to 7, scrypt N to 16 by the harness (package variables); "
                      "legal frozen periods (>= 61440) are not mined — the wallet reads the period out of the script without range-checking it",
-                     "coinbase transactions pay standard scripts only (see finding coinbase-deposit-maturity)",
+                     "coinbase deposits carry frozen periods >= CoinbaseMaturity, as every legal period does (the history shows max(CoinbaseMaturity, frozen+1)-1)",
+                     "without -probes foreign no transaction that concerns a wallet depends on a recent non-wallet output (recorded finding stale-pending:foreign-input)",
                      "binding history rows are compared in quiescent states only"]
     if not proofs_ok and not c.violations and not brk:
         brk = "proof obligations of Properties/C10.v no longer check: " + str(c.proof_break)
